@@ -8,7 +8,7 @@ import os
 import time
 
 from .gen import AConf, Generator
-from .gencheck import GenCheck, vocabulary
+from .gencheck import GenCheck, repeated_item_reads, vocabulary
 from .repo import AnalysisError, Repo
 from .shapes import Shapes
 from .terms import show
@@ -51,6 +51,11 @@ def _summarise(r, trace) -> dict:
         'vocab': [],
     }
     if r.term is not None:
+        # item reads (subscription of / next() on a part of the checked object), counted per syntactic occurrence: the same
+        # read evaluated twice is two items read at one nesting level
+        n_reads, rep = repeated_item_reads(r)
+        d['item_reads'] = n_reads
+        d['item_reads_repeated'] = [k for k, _ in rep][:4]
         seen = set()
         for op, operands in vocabulary(r):
             opn = op if isinstance(op, str) else ':'.join(map(str, op))
